@@ -66,6 +66,10 @@ def draw_scenario(seed, i, kind=None, real_writers=False):
         # property is quantified over each producer's own operation sequence, and the unchanged tree's
         # status writer (fixed name filename + '.tmp') is not safe against that either.
         p["pair"] = rng.choice([None, None, "other"])
+        # the published name is a symbolic link into some storage place (zips); the status file's
+        # directory does not exist (purged, or not yet created)
+        p["symlink"] = kind != "status" and rng.random() < 0.15
+        p["missing_dir"] = kind == "status" and rng.random() < 0.12
     if kind == "status":
         n = rng.randint(1, 5)
         ups = []
@@ -166,7 +170,17 @@ class Scenario:
         shutil.rmtree(self.out, ignore_errors=True)
         os.makedirs(self.out)
         for label, path in self.published.items():
+            if self.p.get("missing_dir") and label == "status":
+                continue  # the directory of the status file is not there
             os.makedirs(os.path.dirname(path), exist_ok=True)
+            if self.p.get("symlink") and label == "zip":
+                store = os.path.join(self.out, "store")
+                os.makedirs(store, exist_ok=True)
+                if self.prev.get(label) is not None:
+                    with open(os.path.join(store, "real.zip"), "wb") as f:
+                        f.write(self.prev[label])
+                os.symlink(os.path.join("store", "real.zip"), path)  # dangling when there is no previous version
+                continue
             if self.prev.get(label) is not None:
                 with open(path, "wb") as f:
                     f.write(self.prev[label])
@@ -200,6 +214,9 @@ class Scenario:
     def prepare_status(self):
         self.published["status"] = os.path.join(self.out, "status.json")
         self.prev["status"] = json.dumps({"status": "previous run", "progress": 100}).encode() if self.p["prev"] else None
+        if self.p.get("missing_dir"):
+            self.published["status"] = os.path.join(self.out, "job-dir-that-is-gone", "status.json")
+            self.prev["status"] = None
 
     def produce_status(self, tracer):
         from mwlib.utils.status import Status
